@@ -741,6 +741,12 @@ def test_structured_evaluate(a):
 
     def m_gsr(ex, argv):
         return ("tuple", [ex.fresh_enum("Option", 2, "matched", {"Some": ex.fresh_status("mst")}), ex.opq()])
+
+    def m_collect_src(ex, argv):
+        # `c.into_iter().collect()` straight from a collection (into an ordered map): the same entries; anything in between
+        # (map / filter / ...) is not modelled and yields an unrelated value
+        v = argv[0] if argv else None
+        return ex.iter_src.get(v[1], v) if v is not None and v[0] == "opaque" else ex.opq()
     ex = a.exec(r"(?:reporters::test::)?structured::<impl at guard/src/commands/reporters/test/structured\.rs:\d+:\d+: \d+:\d+>::evaluate",
                 {"iterate_over": lambda ex, av: ex.opq(), "next": mirexec.m_iter_next, "into_iter": mirexec.m_new_iter, "iter": mirexec.m_new_iter,
                  "get_test_data": m_result_opq, "root_scope": m_scope, "eval_rules_file": mirexec.m_result_status, RC_NEW: mirexec.m_identity,
@@ -748,7 +754,7 @@ def test_structured_evaluate(a):
                  "get_by_rules": m_gbr, "get": mirexec.m_option, "try_from": m_result_opq, "get_status_result": m_gsr,
                  "to_owned": mirexec.m_identity, "to_string": mirexec.m_identity, "as_str": mirexec.m_identity,
                  "now": lambda ex, av: ex.opq(), "elapsed": lambda ex, av: ex.opq(), "as_millis": lambda ex, av: ex.havoc("u128"),
-                 "default": lambda ex, av: ex.opq(), "insert_test_case": lambda ex, av: ("unit",)},
+                 "default": lambda ex, av: ex.opq(), "insert_test_case": lambda ex, av: ("unit",), "collect": m_collect_src},
                 log=("push", "reset_root", "*scope*"), unroll=2, max_paths=120000)
     a.fns.append("commands::reporters::test::structured::StructuredTestReporter::evaluate")
     me = ex.arg_env["_1"]
@@ -803,6 +809,7 @@ def test_structured_evaluate(a):
             continue
         gbrs = calls(p, "get_by_rules")
         parts = []
+        analysed = set()
         case_els = []
         for gt in calls(p, "get_test_data"):
             if gt[3][0] == "enum":
@@ -824,6 +831,7 @@ def test_structured_evaluate(a):
                 tfs = [e for e in seg if e[1] == "try_from"]
                 gsrs = [e for e in seg if e[1] == "get_status_result"]
                 pushes = [e for e in seg if e[1] == "push"]
+                analysed.update(id(e) for e in pushes)
                 nrule += 1
                 if len(gets) != 1 or not from_elem(gets[0][2][1], el) or not from_elem(gets[0][2][0], case_el):
                     parts.append("false")
@@ -856,6 +864,16 @@ def test_structured_evaluate(a):
                     parts.append(f"(and {has} {exp_ok} (= {m[2]} 0))" if ok else "false")
                 else:
                     parts.append("false")
+        # every rule recorded on this path was recorded while visiting an entry of get_by_rules' OWN result (a loop over a re-keyed,
+        # filtered or otherwise derived collection is not the documented one)
+        stray = [e for e in calls(p, "push") if len(e[2]) == 2 and e[2][1][0] == "struct" and e[2][1][1] in ("PassedRule", "FailedRule", "SkippedRule")
+                 and id(e) not in analysed]
+        if stray:
+            import os
+            if os.environ.get("DBG_STRAY"):
+                print("STRAY", [(p.events.index(e), e[2][1][1]) for e in stray], [(p.events.index(g), g[3]) for g in gbrs],
+                      [(i, e[2][0], ex.iter_src.get(e[2][0][1]) if e[2][0][0] == "opaque" else None) for i, e in enumerate(p.events) if e[0] == "call" and e[1] == "next"][:8])
+            parts.append("false")
         if parts:
             bad2.append(f"(and {pc_term(p.pc)} (not (and true {' '.join(parts)})))")
     c2 = a.discharge("test/structured/expectations", ex, bad2,
@@ -939,6 +957,31 @@ def replay_test_structured(a):
                 if not ok:
                     return {"reproduced": True, "rules_file": rules, "test_file": "- name: ".join(blocks), "cmd": f"cfn-guard test -r r.guard -t t.yaml -o {fmt}",
                             "expected": "exit 7 (one expectation is not met)", "exit": pr.returncode, "observed": pr.stdout[:400]}
+        # rule names that differ only in letter case are different rules: both are reported, an unmet expectation on either gives 7
+        open(os.path.join(d, "r2.guard"), "w").write("rule chk {\n  a == 1\n}\nrule CHK {\n  a == 2\n}\nrule Chk when a == 3 {\n  a == 1\n}\n")
+        for fmt in ("json", "junit"):
+            for exp, want in (({"chk": "PASS", "CHK": "FAIL", "Chk": "SKIP"}, 0), ({"chk": "PASS", "CHK": "PASS", "Chk": "SKIP"}, 7),
+                              ({"chk": "FAIL", "CHK": "FAIL", "Chk": "SKIP"}, 7), ({"chk": "PASS", "CHK": "FAIL", "Chk": "PASS"}, 7)):
+                open(os.path.join(d, "t2.yaml"), "w").write("- name: c\n  input:\n    a: 1\n  expectations:\n    rules:\n"
+                                                          + "".join(f"      {k}: {v}\n" for k, v in exp.items()))
+                for rep_no in range(6):          # the defect this guards against depends on hash order: several processes
+                    pr = subprocess.run([exe, "test", "-r", os.path.join(d, "r2.guard"), "-t", os.path.join(d, "t2.yaml"), "-o", fmt],
+                                        capture_output=True, text=True, env=env, timeout=60)
+                    ok = pr.returncode == want
+                    if ok and fmt == "json":
+                        try:
+                            rep = _json.loads(pr.stdout)
+                            rep = rep[0] if isinstance(rep, list) else rep
+                            tc = rep.get("Ok", rep).get("test_cases", [])[0]
+                            names = sorted(x.get("name") for k in ("passed_rules", "failed_rules", "skipped_rules") for x in tc.get(k, []))
+                            ok = names == sorted(exp)
+                        except Exception:
+                            ok = False
+                    tried.append({"fmt": fmt, "expectations": exp, "ok": ok, "exit": pr.returncode})
+                    if not ok:
+                        return {"reproduced": True, "rules_file": open(os.path.join(d, "r2.guard")).read(), "expectations": exp,
+                                "cmd": f"cfn-guard test -r r2.guard -t t2.yaml -o {fmt}", "expected": f"exit {want}, all three rules reported",
+                                "exit": pr.returncode, "observed": pr.stdout[:600]}
         return {"reproduced": False, "tried": tried}
     finally:
         shutil.rmtree(d, ignore_errors=True)
@@ -3136,6 +3179,47 @@ def replay_param_call_records(a):
         shutil.rmtree(d, ignore_errors=True)
 
 
+def scope_delegations(a):
+    """the one-line scope methods: a scope that has no state of its own for a question hands it, unchanged, to the scope / recorder that
+    has - and touches nothing else (in particular no memo table is written from a record passing through)"""
+    RS = struct_fields(a.src, "rules/eval_context.rs", "RootScope")
+    BS = struct_fields(a.src, "rules/eval_context.rs", "BlockScope")
+    VS = struct_fields(a.src, "rules/eval_context.rs", "ValueScope")
+    table = [("RootScope", RS, "recorder", m) for m in ("start_record", "end_record")]
+    table += [("ValueScope", VS, "parent", m) for m in ("start_record", "end_record", "find_parameterized_rule", "rule_status", "resolve_variable",
+                                                        "add_variable_capture_key")]
+    table += [("BlockScope", BS, "parent", m) for m in ("start_record", "end_record", "find_parameterized_rule", "rule_status")]
+    MUT = ("insert", "push", "remove", "clear", "entry", "extend", "get_mut", "or_insert", "or_default", "retain", "pop", "truncate")
+    n = 0
+    for ty, fields, target, meth in table:
+        ex = a.exec(SCOPE_IMPL + meth, {meth: m_result_opq}, log=MUT, first_arg_re=r"_1: &mut (?:eval_context::)?" + ty + "<",
+                    unroll=1, max_paths=400, deepen=False)
+        me = ex.arg_env["_1"]
+        others = [ex.arg_env[k] for k in sorted(ex.arg_env, key=lambda x: int(x[1:])) if k != "_1"]
+        bad = []
+        for p in ex.paths:
+            cs = calls(p, meth)
+            muts = [e for e in p.events if e[0] == "call" and e[1] in MUT]
+            stores = {k: v for k, v in (p.env.get("$stores") or {}).items()}
+            if p.outcome != "return" or len(cs) != 1:
+                bad.append(pc_term(p.pc))
+                continue
+            c = cs[0]
+            tgt = ex.proj.get((me[1], f".{fields.index(target)}"))
+            ok = (tgt is not None and c[2][0] == tgt and list(c[2][1:]) == others and p.ret == c[3] and not muts and not stores)
+            bad.append(f"(and {pc_term(p.pc)} (not {'true' if ok else 'false'}))")
+            n += 1
+        c = a.discharge(f"{ty}::{meth}/delegates", ex, bad,
+                        f"{ty}::{meth}: exactly one call, of `{target}.{meth}` with the arguments given, in order; its result is returned; no field "
+                        "of the scope is written and no collection is modified on the way (a record passing through does not feed a memo table)",
+                        witness=False)
+        if c:
+            c["replay"] = replay_multi_definition_reference(a)
+            c["reproduced"] = c["replay"].get("reproduced", False)
+            a.candidates.append(c)
+    a.fns.append("rules::eval_context::{RootScope, BlockScope, ValueScope}: delegating RecordTracer / EvalContext methods")
+
+
 def root_scope_rule_table(a):
     """root_scope(): the name -> definitions table that rule_status consults holds EVERY definition of every rule"""
     RF = struct_fields(a.src, "rules/exprs.rs", "RulesFile")
@@ -3235,10 +3319,10 @@ SITES = {
     "C07": [flags_verdict_wiring, reporter_chain, library_entry_wiring, structured_report, junit_test_case, validate_execute_step,
             data_input_params_wiring, structured_merge_closure],
     "C16": [test_generic_report, test_get_by_result, test_get_by_rules, test_structured_evaluate, test_result_exit_code],
-    "C02": [param_ctx_end_record],
+    "C02": [param_ctx_end_record, scope_delegations],
     "C09": [report_partition, report_rule_listing, report_combine_union, unary_empty_on_expr, param_ctx_end_record],
-    "C15": [scope_resolution, scope_discipline, param_rule_call, param_ctx_resolve],
-    "C04": [rule_status_semantics, root_scope_rule_table],
+    "C15": [scope_resolution, scope_discipline, scope_delegations, param_rule_call, param_ctx_resolve],
+    "C04": [rule_status_semantics, root_scope_rule_table, scope_delegations],
     "C01": [rule_status_semantics, root_scope_rule_table, scope_discipline],
     "C17": [merge_map, merge_unwrap, param_files_fold_step, data_input_params_wiring, structured_merge_closure],
     "C08": [merge_unwrap, rulegen_unwrap],
